@@ -173,6 +173,12 @@ func main() {
 			})
 		}
 
+		// ---- hs.v2down: v2 outbound peer against a v1-only remote, then the v1 retry ----
+		if want("hs.v2down") {
+			c.Family("hs.v2down", scaled(c.N(28, 600)), func(k *mon.Case) { runV2Down(k, ps) })
+			c.Require("v2down.cases", 10)
+		}
+
 		registerStress(c, ps)
 
 		c.Count("order-fingerprints.distinct(sum over shards)", int64(len(ps.orders)))
